@@ -194,6 +194,8 @@ def execute_run(scn, config, tape_values=None, run_seed=None, keep_events=0):
     counters = Counters()
     keys = set()
     ctx = RunContext(config, tape, log, counters, keys)
+    ctx.prop = getattr(scn, "ID", None)
+    ctx.findings = _FINDINGS_CACHE.setdefault("f", load_known_findings())
     violation = None
     t0 = time.time()
     try:
@@ -235,8 +237,12 @@ def execute_run(scn, config, tape_values=None, run_seed=None, keep_events=0):
         "events": log.n,
         "head": log.head,
         "steps": ctx.step,
+        "known": dict(ctx.known),
         "wall": time.time() - t0,
     }
+
+
+_FINDINGS_CACHE = {}
 
 
 class RunContext:
@@ -247,10 +253,21 @@ class RunContext:
         self.counters = counters
         self.keys = keys
         self.step = 0
-        self.known = []  # known findings matched in this run
+        self.known = {}  # id of known finding -> times matched in this run
+        self.prop = None
+        self.findings = []
 
     def key(self, *parts):
         self.keys.add(hkey(*parts))
+
+    def violate(self, cls, message, detail=None):
+        """Raise a Violation unless it is a listed (open) known finding, in which case the
+        finding is recorded and the run goes on, so that later checks are not masked."""
+        v = Violation(cls, message, step=self.step, detail=detail)
+        kf = match_known(self.prop, v.as_dict(), self.findings)
+        if kf is None:
+            raise v
+        self.known[kf["id"]] = self.known.get(kf["id"], 0) + 1
 
 
 # ---------------------------------------------------------------------------
